@@ -244,7 +244,10 @@ func runC18(c Case, tier string) (res CaseResult) {
 		}
 	case "tracer":
 		k := pairedTracers[c.P[0]]
-		dc := genDual(c.Seed, h.Shanghai, func(o *h.GenOpts) { o.CallBias = 25 })
+		dc := genDual(c.Seed, h.Shanghai, func(o *h.GenOpts) {
+			o.CallBias = 25
+			o.Extra, o.ExtraBias = []func(g *h.Gen){h.LogGadget}, 12 // (several tracers report logs)
+		})
 		// The inherited tracers are attached by a chain to transactions, which enter the VM through
 		// Call or Create only; CallCode/DelegateCall/StaticCall at depth 0 emit no CaptureStart on
 		// either implementation (several tracers then dereference a nil env on both sides).
